@@ -113,29 +113,7 @@ Fixpoint pass_lens (prev : Z) (ps : list passrec) : list Z :=
 Inductive coder : Type := CoMQ (d : MqModel.dec) | CoRaw (r : MqModel.rawdec) | CoNone.
 
 (* RawDecode() called on an MQ decoder object: it shares c, ct, bp and data with Decode *)
-Definition raw_on_dec (d : MqModel.dec) : outcome (MqModel.dec * Z) :=
-  let adv (c ct : Z) : MqModel.dec :=       (* c = data[bp]; bp++ *)
-    match MqModel.d_rest d with
-    | nx :: rest' => MqModel.mkDec (MqModel.d_a d) c ct (MqModel.d_eos d) (MqModel.d_bp d + 1) (MqModel.d_dlen d) nx rest' (MqModel.d_cx d)
-    | [] => MqModel.mkDec (MqModel.d_a d) c ct (MqModel.d_eos d) (MqModel.d_bp d + 1) (MqModel.d_dlen d) 0 [] (MqModel.d_cx d)
-    end in
-  let fill : outcome MqModel.dec :=
-    if MqModel.d_ct d =? 0 then
-      if (0 <=? MqModel.d_bp d) && (MqModel.d_bp d <? MqModel.d_dlen d) then
-        let cur := MqModel.d_cur d in
-        if MqModel.d_c d =? 0xFF then
-          if 0x8F <? cur then
-            Ok (MqModel.mkDec (MqModel.d_a d) 0xFF 8 (MqModel.d_eos d) (MqModel.d_bp d) (MqModel.d_dlen d)
-                              (MqModel.d_cur d) (MqModel.d_rest d) (MqModel.d_cx d))
-          else Ok (adv cur 7)
-        else Ok (adv cur 8)
-      else Panic
-    else Ok d in
-  obind fill (fun d1 =>
-    let ct := MqModel.d_ct d1 - 1 in
-    Ok (MqModel.mkDec (MqModel.d_a d1) (MqModel.d_c d1) ct (MqModel.d_eos d1) (MqModel.d_bp d1) (MqModel.d_dlen d1)
-                      (MqModel.d_cur d1) (MqModel.d_rest d1) (MqModel.d_cx d1),
-        if ct <? 0 then 0 else Z.land (Z.shiftr (MqModel.d_c d1) ct) 1)).
+Definition raw_on_dec (d : MqModel.dec) : outcome (MqModel.dec * Z) := MqModel.dec_raw_decode d.
 
 Definition coder_ask : ask_t coder := fun co kind ctx =>
   match co with
